@@ -7,6 +7,7 @@ import (
 	"go/token"
 	"os"
 	"path/filepath"
+	"regexp"
 	"strconv"
 	"strings"
 )
@@ -25,6 +26,14 @@ import (
 //	  the text after the WARNING header: one of the two known shapes               -> trailerMode
 //	codegen/templates/import.go
 //	  Import.String: the condition under which the alias is left out               -> aliasOmitRule
+//	plugin/resolvergen/resolver.go + resolver.gotpl: WHICH name helper is applied to the GraphQL type name
+//	  structName := templates.H(o.Name) + templates.UcFirst(data.Config.Resolver.Type), the only receiver
+//	  GetMethodComment / GetMethodBody / GetPrevDecl are called with for a field   -> lookupRecvSingle/Follow
+//	  rewriter.MarkStructCopied(templates.H(o.Name) + templates.UcFirst(…))        -> markStructSingle/Follow
+//	  rewriter.GetMethodBody(data.Config.Resolver.Type, caser.String(o.Name))      -> lookupAccessorSingle/Follow
+//	  func (r *{{H $resolver.Object.Name}}{{ucFirst $.ResolverType}}) …            -> emitRecv
+//	  func (r *{{$.ResolverType}}) {{H $object.Name}}() … { return &{{H' $object.Name}}{{ucFirst $.ResolverType}}{r} } -> emitAccessor, emitAccessorRet
+//	  type {{H $object.Name}}{{ucFirst $.ResolverType}} struct { *{{$.ResolverType}} } -> emitStruct
 //
 // Anything else is a shape the translator does not know: it fails (broken tie).
 func init() { extractors["RewriteOffsets"] = extractRewriteOffsets }
@@ -82,6 +91,165 @@ func roFunc(f *ast.File, name string) *ast.FuncDecl {
 		}
 	}
 	return nil
+}
+
+// ---- name helpers (which function turns a GraphQL type name into a Go identifier, where)
+
+var roGoHelper = map[string]string{"templates.LcFirst": ".lcFirst", "templates.UcFirst": ".ucFirst", "templates.ToGo": ".toGo", "templates.ToGoPrivate": ".toGoPrivate"}
+var roTplHelper = map[string]string{"lcFirst": ".lcFirst", "ucFirst": ".ucFirst", "go": ".toGo", "goPrivate": ".toGoPrivate"}
+
+// roHelperOfName recognises templates.H(o.Name) and returns the Lean constructor of H
+func roHelperOfName(e ast.Expr) (string, error) {
+	c, ok := e.(*ast.CallExpr)
+	if !ok || len(c.Args) != 1 || roSel(c.Args[0]) != "o.Name" {
+		return "", fmt.Errorf("not a name helper applied to o.Name")
+	}
+	h, ok := roGoHelper[roSel(c.Fun)]
+	if !ok {
+		return "", fmt.Errorf("unknown name helper %s", roSel(c.Fun))
+	}
+	return h, nil
+}
+
+// roStructExpr recognises templates.H(o.Name) + templates.UcFirst(data.Config.Resolver.Type)
+func roStructExpr(e ast.Expr) (string, error) {
+	b, ok := e.(*ast.BinaryExpr)
+	if !ok || b.Op != token.ADD {
+		return "", fmt.Errorf("not <helper>(o.Name) + templates.UcFirst(data.Config.Resolver.Type)")
+	}
+	c, ok := b.Y.(*ast.CallExpr)
+	if !ok || roSel(c.Fun) != "templates.UcFirst" || len(c.Args) != 1 || roSel(c.Args[0]) != "data.Config.Resolver.Type" {
+		return "", fmt.Errorf("the struct name suffix is not templates.UcFirst(data.Config.Resolver.Type)")
+	}
+	return roHelperOfName(b.X)
+}
+
+type roNames struct{ lookup, mark, accessor string }
+
+// roNameFacts reads the three facts off one of generateSingleFile / generatePerSchema
+func roNameFacts(f *ast.File, fn string) (roNames, error) {
+	var out roNames
+	fd := roFunc(f, fn)
+	if fd == nil {
+		return out, fmt.Errorf("resolver.go: %s not found", fn)
+	}
+	var err error
+	fail := func(format string, a ...any) bool {
+		if err == nil {
+			err = fmt.Errorf("resolver.go %s: "+format, append([]any{fn}, a...)...)
+		}
+		return false
+	}
+	nStruct, nMark, nAcc := 0, 0, 0
+	lookups := map[string]int{}
+	titleCaser := false
+	ast.Inspect(fd, func(n ast.Node) bool {
+		switch v := n.(type) {
+		case *ast.AssignStmt:
+			if len(v.Lhs) == 1 && len(v.Rhs) == 1 && roSel(v.Lhs[0]) == "structName" {
+				h, e := roStructExpr(v.Rhs[0])
+				if e != nil {
+					return fail("structName: %v", e)
+				}
+				out.lookup = h
+				nStruct++
+			}
+			if len(v.Lhs) == 1 && len(v.Rhs) == 1 && roSel(v.Lhs[0]) == "caser" {
+				c, ok := v.Rhs[0].(*ast.CallExpr)
+				if ok && roSel(c.Fun) == "cases.Title" && len(c.Args) == 2 && roSel(c.Args[0]) == "language.English" && roSel(c.Args[1]) == "cases.NoLower" {
+					titleCaser = true
+				} else {
+					return fail("caser is not cases.Title(language.English, cases.NoLower)")
+				}
+			}
+		case *ast.CallExpr:
+			switch roSel(v.Fun) {
+			case "rewriter.MarkStructCopied":
+				if len(v.Args) != 1 {
+					return fail("MarkStructCopied: unknown call shape")
+				}
+				h, e := roStructExpr(v.Args[0])
+				if e != nil {
+					return fail("MarkStructCopied: %v", e)
+				}
+				out.mark = h
+				nMark++
+			case "rewriter.GetMethodComment", "rewriter.GetMethodBody", "rewriter.GetPrevDecl":
+				if len(v.Args) != 2 {
+					return fail("%s: unknown call shape", roSel(v.Fun))
+				}
+				if roSel(v.Args[0]) == "data.Config.Resolver.Type" && roSel(v.Fun) == "rewriter.GetMethodBody" {
+					// the accessor func (r *Resolver) <X>()
+					if c, ok := v.Args[1].(*ast.CallExpr); ok && roSel(c.Fun) == "caser.String" && len(c.Args) == 1 && roSel(c.Args[0]) == "o.Name" {
+						out.accessor = ".title"
+					} else if h, e := roHelperOfName(v.Args[1]); e == nil {
+						out.accessor = h
+					} else {
+						return fail("accessor lookup: unknown name expression")
+					}
+					nAcc++
+					return true
+				}
+				if roSel(v.Args[0]) != "structName" || roSel(v.Args[1]) != "f.GoFieldName" {
+					return fail("%s is called with something else than (structName, f.GoFieldName)", roSel(v.Fun))
+				}
+				lookups[roSel(v.Fun)]++
+			}
+		}
+		return true
+	})
+	if err != nil {
+		return out, err
+	}
+	if nStruct != 1 || nMark != 1 || nAcc != 1 {
+		return out, fmt.Errorf("resolver.go %s: expected one structName assignment, one MarkStructCopied and one accessor lookup (found %d, %d, %d)", fn, nStruct, nMark, nAcc)
+	}
+	if out.accessor == ".title" && !titleCaser {
+		return out, fmt.Errorf("resolver.go %s: caser.String used without caser := cases.Title(language.English, cases.NoLower)", fn)
+	}
+	if lookups["rewriter.GetMethodComment"] != 1 || lookups["rewriter.GetMethodBody"] != 1 || lookups["rewriter.GetPrevDecl"] != 1 {
+		return out, fmt.Errorf("resolver.go %s: expected GetMethodComment, GetMethodBody and GetPrevDecl once each with (structName, f.GoFieldName), found %v", fn, lookups)
+	}
+	return out, nil
+}
+
+var roTplRecv = regexp.MustCompile(`func \(r \*\{\{\s*(\w+) \$resolver\.Object\.Name\s*\}\}\{\{\s*ucFirst \$\.ResolverType\s*\}\}\) \{\{\s*\$resolver\.Field\.GoFieldName\s*\}\}`)
+var roTplAcc = regexp.MustCompile(`func \(r \*\{\{\s*\$\.ResolverType\s*\}\}\) \{\{\s*(\w+) \$object\.Name\s*\}\}\(\) \{\{\s*\$object\.ResolverInterface \| ref\s*\}\} \{ return &\{\{\s*(\w+) \$object\.Name\s*\}\}\{\{\s*ucFirst \$\.ResolverType\s*\}\}\{r\} \}`)
+var roTplStruct = regexp.MustCompile(`type \{\{\s*(\w+) \$object\.Name\s*\}\}\{\{\s*ucFirst \$\.ResolverType\s*\}\} struct \{ \*\{\{\s*\$\.ResolverType\s*\}\} \}`)
+
+// roTplNames reads the helpers the template applies to the object name where it writes Go identifiers
+func roTplNames(tpl string) (recv, acc, accRet, strct string, err error) {
+	one := func(re *regexp.Regexp, what string) []string {
+		ms := re.FindAllStringSubmatch(tpl, -1)
+		if len(ms) != 1 {
+			if err == nil {
+				err = fmt.Errorf("resolver.gotpl: expected exactly one %s of the known shape, found %d", what, len(ms))
+			}
+			return nil
+		}
+		return ms[0]
+	}
+	h := func(n string) string {
+		c, ok := roTplHelper[n]
+		if !ok && err == nil {
+			err = fmt.Errorf("resolver.gotpl: unknown name helper %q", n)
+		}
+		return c
+	}
+	if m := one(roTplRecv, "resolver method header"); m != nil {
+		recv = h(m[1])
+	}
+	if m := one(roTplAcc, "object accessor"); m != nil {
+		acc, accRet = h(m[1]), h(m[2])
+	}
+	if m := one(roTplStruct, "resolver struct type"); m != nil {
+		strct = h(m[1])
+	}
+	// no other place may write an identifier derived from the object name
+	if n := strings.Count(tpl, "Object.Name") + strings.Count(tpl, "$object.Name"); err == nil && n != 5 {
+		err = fmt.Errorf("resolver.gotpl: the object name is used in %d places, expected 5 (method receiver, accessor comment, accessor, accessor result, struct type)", n)
+	}
+	return
 }
 
 func extractRewriteOffsets(repo string) (string, error) {
@@ -298,12 +466,25 @@ func extractRewriteOffsets(repo string) (string, error) {
 	if trimmed != 2 || bare != 0 {
 		return "", fmt.Errorf("resolver.go: expected `implementation := strings.TrimSpace(rewriter.GetMethodBody(…))` in both layouts (found %d trimmed, %d other)", trimmed, bare)
 	}
+	// ---- which helper computes the receiver / struct / accessor names resolver.go looks up
+	nmSingle, err := roNameFacts(rf, "generateSingleFile")
+	if err != nil {
+		return "", err
+	}
+	nmFollow, err := roNameFacts(rf, "generatePerSchema")
+	if err != nil {
+		return "", err
+	}
 	// ---- template trailer
 	tb, err := os.ReadFile(filepath.Join(repo, "plugin/resolvergen/resolver.gotpl"))
 	if err != nil {
 		return "", err
 	}
 	tpl := string(tb)
+	eRecv, eAcc, eAccRet, eStruct, err := roTplNames(tpl)
+	if err != nil {
+		return "", err
+	}
 	const marker = "Move them out to keep these resolver files clean."
 	i := strings.Index(tpl, marker)
 	if i < 0 || !strings.Contains(tpl[:i], `{{ if (ne .RemainingSource "") }}`) {
@@ -374,6 +555,7 @@ func extractRewriteOffsets(repo string) (string, error) {
 	b.WriteString("namespace GqlgenVerif.Gen.RewriteOffsets\n\n")
 	b.WriteString("/-- how the template writes the leftover code after the WARNING header -/\ninductive TrailerMode\n  | blockAlways       -- always inside one /* */ comment\n  | lineWhenBlockEnd  -- as // lines when the code contains \"*/\", else inside /* */\n  deriving DecidableEq, Repr\n\n")
 	b.WriteString("/-- when (*templates.Import).String leaves the alias out -/\ninductive AliasOmitRule\n  | suffixOnly      -- strings.HasSuffix(path, alias)\n  | suffixAndName   -- ... && (alias == package name || package name unknown)\n  deriving DecidableEq, Repr\n\n")
+	b.WriteString("/-- a function that turns a GraphQL type name into (part of) a Go identifier -/\ninductive NameHelper\n  | lcFirst      -- templates.LcFirst, template func lcFirst\n  | ucFirst      -- templates.UcFirst, template func ucFirst\n  | toGo         -- templates.ToGo, template func go\n  | toGoPrivate  -- templates.ToGoPrivate, template func goPrivate\n  | title        -- cases.Title(language.English, cases.NoLower).String\n  deriving DecidableEq, Repr\n\n")
 	fmt.Fprintf(&b, "/-- GetMethodBody: getSource(d.Body.Pos()+%d, d.Body.End()-%d) -/\ndef bodyStartOff : Nat := %d\ndef bodyEndOff : Nat := %d\n\n", startOff, endOff, startOff, endOff)
 	fmt.Fprintf(&b, "/-- RemainingSource: `if r.copied[d] { continue }` present -/\ndef skipCopied : Bool := %v\n", skipCopied)
 	qs := []string{}
@@ -385,6 +567,18 @@ func extractRewriteOffsets(repo string) (string, error) {
 	fmt.Fprintf(&b, "/-- RemainingSource: result passed through strings.TrimSpace -/\ndef trimRemaining : Bool := %v\n", trimRem)
 	fmt.Fprintf(&b, "/-- resolver.gotpl: shape of the WARNING block -/\ndef trailerMode : TrailerMode := %s\n", mode)
 	fmt.Fprintf(&b, "/-- codegen/templates/import.go: Import.String -/\ndef aliasOmitRule : AliasOmitRule := %s\n", rule)
+	b.WriteString("/-- resolver.go: `structName := H(o.Name) + UcFirst(Resolver.Type)`, the receiver GetMethodComment / GetMethodBody / GetPrevDecl look a field's method up under (generateSingleFile, generatePerSchema) -/\n")
+	fmt.Fprintf(&b, "def lookupRecvSingle : NameHelper := %s\ndef lookupRecvFollow : NameHelper := %s\n", nmSingle.lookup, nmFollow.lookup)
+	b.WriteString("/-- resolver.go: `MarkStructCopied(H(o.Name) + UcFirst(Resolver.Type))` -/\n")
+	fmt.Fprintf(&b, "def markStructSingle : NameHelper := %s\ndef markStructFollow : NameHelper := %s\n", nmSingle.mark, nmFollow.mark)
+	b.WriteString("/-- resolver.go: `GetMethodBody(Resolver.Type, H(o.Name))`, the accessor that is marked copied -/\n")
+	fmt.Fprintf(&b, "def lookupAccessorSingle : NameHelper := %s\ndef lookupAccessorFollow : NameHelper := %s\n", nmSingle.accessor, nmFollow.accessor)
+	b.WriteString("/-- resolver.gotpl: `func (r *{{H $resolver.Object.Name}}{{ucFirst $.ResolverType}}) …` -/\n")
+	fmt.Fprintf(&b, "def emitRecv : NameHelper := %s\n", eRecv)
+	b.WriteString("/-- resolver.gotpl: `func (r *{{$.ResolverType}}) {{H $object.Name}}() … { return &{{H' $object.Name}}{{ucFirst $.ResolverType}}{r} }` -/\n")
+	fmt.Fprintf(&b, "def emitAccessor : NameHelper := %s\ndef emitAccessorRet : NameHelper := %s\n", eAcc, eAccRet)
+	b.WriteString("/-- resolver.gotpl: `type {{H $object.Name}}{{ucFirst $.ResolverType}} struct { *{{$.ResolverType}} }` -/\n")
+	fmt.Fprintf(&b, "def emitStruct : NameHelper := %s\n", eStruct)
 	b.WriteString("\nend GqlgenVerif.Gen.RewriteOffsets\n")
 	return b.String(), nil
 }
